@@ -93,6 +93,64 @@ func stressServer(rng *rand.Rand, nConn, nReq int, shutdownAfter time.Duration) 
 	return
 }
 
+// stressBareServer: a Server used exactly as its zero value allows - no Handle call, no callbacks, only the built-in
+// Discover Versions - hit by its very first requests on several connections at the same instant (anything the server
+// initialises lazily is initialised under this load)
+func stressBareServer(nConn int) error {
+	s := &kmip.Server{}
+	l := rec.NewListener()
+	init := make(chan struct{})
+	ret := make(chan error, 1)
+	go func() { ret <- s.Serve(l, init) }()
+	<-init
+	start := make(chan struct{})
+	var wg sync.WaitGroup
+	errs := make(chan error, nConn)
+	for i := 0; i < nConn; i++ {
+		sc, cc := rec.Pipe()
+		l.Push(rec.AcceptStep{Conn: rec.NewConn(sc, i+1)})
+		wg.Add(1)
+		go func(cc *rec.MemConn) {
+			defer wg.Done()
+			defer cc.Close()
+			_ = cc.SetDeadline(time.Now().Add(5 * time.Second))
+			<-start
+			for k := 0; k < 3; k++ {
+				req := kmip.Request{Header: kmip.RequestHeader{Version: kmip.ProtocolVersion{Major: 1, Minor: 4}, BatchCount: 1},
+					BatchItems: []kmip.RequestBatchItem{{Operation: kmip.OPERATION_DISCOVER_VERSIONS, RequestPayload: kmip.DiscoverVersionsRequest{}}}}
+				var resp kmip.Response
+				if err := kmip.NewEncoder(cc).Encode(&req); err != nil {
+					errs <- err
+					return
+				}
+				if err := kmip.NewDecoder(cc).Decode(&resp); err != nil {
+					errs <- err
+					return
+				}
+				if len(resp.BatchItems) != 1 || resp.BatchItems[0].ResultStatus != kmip.RESULT_STATUS_SUCCESS {
+					errs <- fmt.Errorf("built-in Discover Versions not served: %+v", resp.BatchItems)
+					return
+				}
+			}
+		}(cc)
+	}
+	time.Sleep(5 * time.Millisecond)
+	close(start)
+	wg.Wait()
+	ctx, cancel := context.WithTimeout(context.Background(), 5*time.Second)
+	defer cancel()
+	if err := s.Shutdown(ctx); err != nil {
+		return err
+	}
+	<-ret
+	select {
+	case e := <-errs:
+		return e
+	default:
+		return nil
+	}
+}
+
 func stressCodec(seed int64, workers, n int) {
 	types := gen.StructTypes()
 	names := typeNames(types)
@@ -125,7 +183,7 @@ func runC12(r *Result, d *drv.Driver, tier string, seed int64, replay string) {
 	if tier == "thorough" {
 		rounds, nConn, nReq, codecN = 40, 24, 60, 2000
 	}
-	r.Rule = fmt.Sprintf("the real library under Go's race detector (kvrun built with -race=%v): %d rounds of %d concurrent sessions x %d two-item requests (auth callbacks, a panicking handler, the built-in Discover Versions) with Shutdown issued at a random moment; "+
+	r.Rule = fmt.Sprintf("the real library under Go's race detector (kvrun built with -race=%v): %d rounds of %d concurrent sessions x %d two-item requests (auth callbacks, a panicking handler, the built-in Discover Versions) with Shutdown issued at a random moment; the same number of rounds of 8 connections sending their first requests simultaneously to a zero-value Server (no Handle, no callbacks); "+
 		"16 goroutines encoding/decoding overlapping types through independent Encoders/Decoders; the C11 schedule replays and a batch of C07 session scripts, all in one process. Every detector report is a finding. distinct = one per workload round", raceEnabled, rounds, nConn, nReq)
 	rng := rand.New(rand.NewSource(seed))
 	total := 0
@@ -139,6 +197,12 @@ func runC12(r *Result, d *drv.Driver, tier string, seed int64, replay string) {
 		}
 	}
 	r.Stats["requests-served-before-shutdown"] = total
+	for i := 0; i < rounds; i++ {
+		r.eval(fmt.Sprintf("bare-server-round-%d", i), true)
+		if err := stressBareServer(8); err != nil {
+			r.find(Finding{Kind: "violation", What: "a zero-value Server (no Handle, no callbacks) did not serve concurrent first requests correctly", Input: fmt.Sprintf("round %d", i), Actual: err.Error()})
+		}
+	}
 	stressCodec(seed, 16, codecN)
 	r.eval("codec-parallel", true)
 	sub := newResult("C11", "quick", seed)
